@@ -24,6 +24,8 @@ META = {
     'exhaustive': True,
 }
 
+META['explanation'] += ' ' + "R7: TXT chunking (see C01.R8). R8: the SPF network composer evaluated for both address families (prefix omitted only at the family's maximum). R9: compose has no effect on the object (effect analysis of C13.R1 restricted to compose)."
+
 ZONE_LITERALS = ('GMT', 'UTC', "Z'", '+0000', '+00:00')
 
 
